@@ -82,6 +82,7 @@ def gen(rng, tier):
 
 class C07(Prop):
     id = "C07"
+    track_states = True
     quick_runs = 1500
     thorough_runs = 40000
     assumptions = ["no kill is injected: every worker death in these runs is loky's own idle time-out exit",
